@@ -80,3 +80,44 @@ Proof.
   change (fold_left _ t (Some ([], 0))) with (fold_left (tstep x) t (Some ([], 0))).
   rewrite tfold_spec. cbn [skipn]. destruct (transform_from t x) as [r|]; reflexivity.
 Qed.
+
+(* ---- empty_solution (REGENERATED): the concatenation, in declaration order, of one sample per variable; when every variable's sample holds one member of the
+   domain per child (what MultiVarBridge.multi_randomize_in_dom / child_randomize_in_dom prove of the regenerated randomize() under numpy's documented ranges),
+   the random solution has one coordinate per dimension and lies in the search space *)
+From PV Require Import Vars_proofs Task_proofs.
+Lemma empty_solution_bridge rv t : gen_task_empty_solution rv t = flat_map (fun nv => rv (snd nv)) t.
+Proof.
+  unfold gen_task_empty_solution. induction t as [|[n v] r IH]; cbn [flat_map]; auto. rewrite IH, map_id. reflexivity.
+Qed.
+Lemma Forall2_app_ {X Y} (R : X -> Y -> Prop) a b c d : Forall2 R a c -> Forall2 R b d -> Forall2 R (a ++ b) (c ++ d).
+Proof. induction 1; cbn; auto. Qed.
+Lemma forall2_zip_forallb (vs : list svar) (x : list coord) :
+  Forall2 (fun sv c => in_domb sv c = true) vs x -> forallb (fun p => in_domb (snd p) (fst p)) (zip x vs) = true.
+Proof. induction 1 as [|sv c vs x H Hr IH]; cbn; auto. rewrite H, IH. reflexivity. Qed.
+Theorem empty_solution_in_space rv t : valid_task t ->
+  (forall nv, In nv t -> Forall2 (fun sv c => in_domb sv c = true) (children (snd nv)) (rv (snd nv))) ->
+  length (gen_task_empty_solution rv t) = dimension t /\ in_spaceb t (gen_task_empty_solution rv t) = true.
+Proof.
+  intros Hv Hr. rewrite empty_solution_bridge.
+  assert (F : Forall2 (fun sv c => in_domb sv c = true) (flat_vars t) (flat_map (fun nv => rv (snd nv)) t)).
+  { unfold flat_vars. induction t as [|nv r IH]; cbn [flat_map]; [constructor|].
+    apply Forall2_app_; [apply Hr; left; auto|]. apply IH; [inversion Hv; auto|intros; apply Hr; right; auto]. }
+  assert (L : length (flat_map (fun nv => rv (snd nv)) t) = dimension t).
+  { rewrite <- (Forall2_len _ _ _ F). apply flat_vars_length; auto. }
+  split; auto. unfold in_spaceb. rewrite L, Nat.eqb_refl. cbn [andb]. apply forall2_zip_forallb; auto.
+Qed.
+
+(* the whole chain, regenerated end to end: Task.empty_solution over the regenerated randomize() of every variable class, under numpy's documented ranges *)
+From PVGen Require Import GenMultiVar.
+From PVBridge Require Import MultiVarBridge.
+Theorem random_solution_in_space (du : xnum -> xnum -> xnum) (dc : nat -> nat) (dp : nat -> list nat) t :
+  (forall lo hi, is_fin lo = true -> is_fin hi = true -> xltb lo hi = true -> is_fin (du lo hi) = true /\ xleb lo (du lo hi) = true /\ xleb (du lo hi) hi = true) ->
+  (forall n, 1 <= n -> dc n < n) -> (forall n, is_permb n (dp n) = true) ->
+  valid_task t -> valid_flat t ->
+  let rv := fun v => gen_cmv_randomize (child_randomize du dc dp) (children v) in
+  length (gen_task_empty_solution rv t) = dimension t /\ in_spaceb t (gen_task_empty_solution rv t) = true.
+Proof.
+  intros H1 H2 H3 Hv Hf rv. apply empty_solution_in_space; auto.
+  intros nv Hin. apply (multi_randomize_in_dom du dc dp H1 H2 H3).
+  unfold valid_flat, flat_vars in Hf. rewrite Forall_forall in *. intros sv Hsv. apply Hf. apply in_flat_map. exists nv. auto.
+Qed.
